@@ -60,7 +60,12 @@ def main():
             stated = "(* statement as proved in the theory file (its printed form does not re-parse verbatim) *)\nTheorem %s_%s : ltac:(let t := type of %s in exact t).\nProof. exact %s. Qed.\n" % (pid, n, n, n)
             sys.stderr.write("note: %s stated via type-of\n" % n)
         body.append(stated)
-    text = "(** %s *)\n%s\n\n%s\n%s" % (intro, header, "\n".join(body), "".join("Print Assumptions %s_%s.\n" % (pid, n) for n in pa))
+    sites = ""
+    if os.environ.get("MKPROPS_SITES"):
+        sites = ("\n(* tie to the source: every statement pattern the model transcribes is still recognised, in order,\n"
+                 "   in /repo's current source (gen/Sites_gen.v is regenerated on every run by tools/sites.py) *)\n"
+                 "From FG.gen Require Import Sites_gen.\nTheorem %s_sites_recognised : forallb (fun b => b) sites_%s = true.\nProof. vm_compute. reflexivity. Qed.\n" % (pid, pid))
+    text = "(** %s *)\n%s\n\n%s\n%s%s" % (intro, header, "\n".join(body), "".join("Print Assumptions %s_%s.\n" % (pid, n) for n in pa), sites)
     open(os.path.join(COQ, "properties", pid + ".v"), "w").write(text)
     ok, out = compiles(text)
     print(pid, "ok" if ok else "FAILED", len(names), "theorems")
